@@ -458,6 +458,56 @@ def explore_c06(rng, tier, res, deep=False):
         if rng.random() < 0.3:
             cases.append((f"$[?@.b {op} @.a]", [{"a": a, "b": b}]))
     sweep(res, PROBE_ENV, cases, "C06", check_ast_iter=(tier != "thorough"), expect_valid=True)
+    comparand_series(rng, tier, res)
+
+
+def comparand_series(rng, tier, res):
+    """The table holds on EVERY evaluation: one compiled query, one container object; the comparands (the member an
+    absolute query `$.x` reads, the member `@.b` reads) are replaced in place between applications, through every
+    kind and through absence; each application is judged by the RFC oracle on a snapshot of the value as it then is."""
+    import copy
+
+    import model
+
+    env = real.make_env(PROBE_ENV)
+    eenv = real.enc_env(PROBE_ENV)
+    MISSING = object()
+    series = [2, 5, "b", MISSING, 0, False, None, [], {"a": 1}, 1.0, "a", MISSING, True, 1, [1], {}, "", 2]
+    forms = [("$.x", "@.b"), ("@.b", "$.x"), ("$.x", "$.y"), ("value($.x)", "@.b"), ("$.x", "2"), ("@.b", "$.rows[0].b"), ("$.x.a", "@.b")]
+    lines, got = [], []
+    for l, r in forms:
+        for op in OPS:
+            q = f"$.rows[?{l} {op} {r}]"
+            _line, compiled = real.observe_compile(env, q)
+            if compiled is None:
+                continue
+            live = {"rows": [{"b": 2}, {"b": "b"}, {"b": None}, {}, {"b": 1}, {"b": [1]}], "x": 1, "y": 2}
+            ser = list(series)
+            if tier == "thorough":
+                ser = ser + [rng.choice(CMP_POOL) for _ in range(40)]
+            for i, v in enumerate(ser):
+                where = live if i % 3 != 2 else live["rows"][i % len(live["rows"])]
+                key = ("x" if i % 2 == 0 else "y") if where is live else "b"
+                if v is MISSING:
+                    where.pop(key, None)
+                else:
+                    where[key] = gen._copy(v)
+                snap = copy.deepcopy(live)
+                got.append((q, snap, real.observe_stream(compiled, live)))
+                lines.append(f"rfc.query\t{eenv}\t{wire.enc_str(q)}\t{wire.enc_json(snap)}")
+    for (q, snap, rl), rep in zip(got, model.run_batch_parallel(lines)):
+        res.evaluations += 1
+        if rep.split("\t")[0] != "valid" or not (rl.startswith("stream\t") and rl.endswith("\tend")):
+            res.violations.append({"property": "C06", "query": q, "document": snap, "env": PROBE_ENV, "observed": rl[:300], "expected": rep[:300],
+                                   "what": "a comparison query the RFC accepts does not compile or does not run to the end"})
+            continue
+        want = rep.split("\t", 1)[1] if "\t" in rep else ""
+        if rl.split("\t")[1] != want:
+            res.violations.append({"property": "C06", "query": q, "document": snap, "env": PROBE_ENV,
+                                   "observed": rl.split("\t")[1][:300], "expected": want[:300],
+                                   "history": "compile once; apply repeatedly to one container object whose members are replaced in place between applications (the value at the time of the failing application is shown)",
+                                   "what": "a comparison in a reused compiled query is not the RFC 9535 outcome for the comparands as they are at that application"})
+    res.count("comparand-series", len(lines))
 
 
 # ---------------------------------------------------------------------------------------------
@@ -494,6 +544,25 @@ def explore_c07(rng, tier, res, deep=False):
             cases.append((q, arr))
         for i in set(comps(n)) - {None}:
             cases.append((f"$[{i}]", arr))
+        # an omitted component next to the explicit value it might be mistaken for (start 0 / end len / step 1), on the
+        # same array, in both orders (alternating): the defaults depend on the SIGN of step and are per evaluation
+        k = 0
+        for c in [None, 1, -1, 2, -2, 3, -3]:
+            sc = "" if c is None else f":{c}"
+            for b in [None, 0, 1, -1, n, -n - 1, n - 1]:
+                sb = "" if b is None else str(b)
+                for a in [0, n - 1, -1, n, -n - 1]:
+                    pair = [(f"$[{a}:{sb}{sc}]", arr), (f"$[:{sb}{sc}]", arr)]
+                    k += 1
+                    cases.extend(pair if k % 2 else pair[::-1])
+                    cases.append(pair[k % 2])
+            for a in [None, 0, 1, -1]:
+                sa = "" if a is None else str(a)
+                for b in [n, -n - 1, 0, -1, n - 1]:
+                    pair = [(f"$[{sa}:{b}{sc}]", arr), (f"$[{sa}:{sc}]" if sc else f"$[{sa}:]", arr)]
+                    k += 1
+                    cases.extend(pair if k % 2 else pair[::-1])
+                    cases.append(pair[k % 2])
     for v in ({"0": 1, "a": 2}, "abc", 5, None, True, {}):
         for sel in ("0", "-1", "0:1", "::-1", ":"):
             cases.append((f"$[{sel}]", v))
